@@ -4635,3 +4635,24 @@ impl IceSocketWrapper {
         }
     }
 }
+
+#[cfg(rustrtc_verif)]
+impl IceTransport {
+    /// Verification hook (additive, `--cfg rustrtc_verif` only): forward
+    /// `TurnClient::verif_set_next_channel` to every gathered TURN client (the gatherer's
+    /// client table is private). Returns the number of clients touched.
+    pub async fn verif_turn_set_next_channel(&self, n: u16) -> usize {
+        let clients: Vec<Arc<TurnClient>> = self
+            .inner
+            .gatherer
+            .turn_clients
+            .lock()
+            .values()
+            .cloned()
+            .collect();
+        for c in &clients {
+            c.verif_set_next_channel(n).await;
+        }
+        clients.len()
+    }
+}
